@@ -67,6 +67,8 @@ pub struct Model {
     /// per vAMM: cumulative premium fraction accumulated by the harness from its own reference premium of every
     /// successful settlement (None once a settlement could not be referenced)
     pub cum_ref: Vec<Option<i128>>,
+    /// the fee pool the engine was last configured with, from the history of accepted calls (None: as deployed)
+    pub fee_pool_ref: Option<String>,
     /// the insurance fund's registry as the history of accepted AddVamm / RemoveVamm calls implies it
     pub registry_ref: BTreeSet<String>,
 }
@@ -437,6 +439,14 @@ impl Runner {
             ));
         }
         if out.ok {
+            if let Op::RawEngine { json } = &step.op {
+                // a raw settlement call cannot be referenced: the running sums are given up for the rest of the run
+                if json.contains("pay_funding") {
+                    for c in self.model.cum_ref.iter_mut() {
+                        *c = None;
+                    }
+                }
+            }
             if let Op::PayFunding { vamm } = &step.op {
                 // the harness's own running sum of settlement premiums (reference for "funding owed")
                 let v = *vamm;
@@ -483,6 +493,9 @@ impl Runner {
         if out.ok {
             if let Op::SetPause { pause } = step.op {
                 self.model.paused = pause;
+            }
+            if let Op::EngineConfig { fee_pool: Some(fp), .. } = &step.op {
+                self.model.fee_pool_ref = Some(self.w.resolve(fp));
             }
             match &step.op {
                 Op::AppendPrice { vamm, price, timestamp } => {
